@@ -242,6 +242,17 @@ func runSelftest(r *Run, repo string, _ []Finding) map[string]any {
 			seedResults[i] = runSeeded(sd, repo, self, "/verif/known_findings.json")
 		}(i, sd)
 	}
+	benign := loadBenign(r.Prop)
+	benignResults := make([]variantResult, len(benign))
+	for i, bp := range benign {
+		wg.Add(1)
+		go func(i int, bp benignPatch) {
+			defer wg.Done()
+			sem <- struct{}{}
+			defer func() { <-sem }()
+			benignResults[i] = runBenign(bp, repo, self, "/verif/known_findings.json")
+		}(i, bp)
+	}
 	wg.Wait()
 	var detected, silent, skipped, failed int
 	for _, x := range results {
@@ -273,9 +284,100 @@ func runSelftest(r *Run, repo string, _ []Finding) map[string]any {
 			fmt.Printf("seeded %s: %s %s\n", x.ID, x.Outcome, x.Detail)
 		}
 	}
-	return map[string]any{"variants": len(vs), "breaking_detected": detected, "benign_silent": silent,
+	benignSilent := 0
+	for _, x := range benignResults {
+		switch x.Outcome {
+		case "silent":
+			benignSilent++
+		case "skipped":
+			skipped++
+			fmt.Printf("refactor-skipped %s: %s\n", x.ID, x.Detail)
+		default:
+			failed++
+			fmt.Printf("refactor %s: %s %s\n", x.ID, x.Outcome, x.Detail)
+		}
+	}
+	extra := map[string]any{"refactors": len(benign), "refactors_silent_for_all_properties": benignSilent, "refactor_results": benignResults}
+	return withExtra(map[string]any{"variants": len(vs), "breaking_detected": detected, "benign_silent": silent,
 		"skipped": skipped, "failed": failed, "results": results,
-		"seeded_changes": len(seeded), "seeded_detected": seedDetected, "seeded_undetected_documented": seedMissed, "seeded_results": seedResults}
+		"seeded_changes": len(seeded), "seeded_detected": seedDetected, "seeded_undetected_documented": seedMissed, "seeded_results": seedResults}, extra)
+}
+
+func withExtra(m, extra map[string]any) map[string]any {
+	for k, v := range extra {
+		m[k] = v
+	}
+	return m
+}
+
+// benignPatch is a behaviour-preserving refactor written by a sub-agent (kept under
+// /verif/benign/<id>/): applied to a scratch copy it must leave ALL twenty checks silent.
+type benignPatch struct {
+	ID       string `json:"id"`
+	Property string `json:"property"`
+	Dir      string `json:"-"`
+}
+
+func loadBenign(prop string) []benignPatch {
+	root := "/verif/benign"
+	ents, err := os.ReadDir(root)
+	if err != nil {
+		return nil
+	}
+	var out []benignPatch
+	for _, e := range ents {
+		b, err := os.ReadFile(filepath.Join(root, e.Name(), "meta.json"))
+		if err != nil {
+			continue
+		}
+		var bp benignPatch
+		if json.Unmarshal(b, &bp) != nil || bp.Property != prop {
+			continue
+		}
+		bp.Dir = filepath.Join(root, e.Name())
+		out = append(out, bp)
+	}
+	sort.Slice(out, func(i, j int) bool { return out[i].ID < out[j].ID })
+	return out
+}
+
+func runBenign(bp benignPatch, repo, self, knownPath string) variantResult {
+	res := variantResult{ID: bp.ID, Kind: "refactor"}
+	tmp, err := os.MkdirTemp("", "fibercheck-ref-")
+	if err != nil {
+		res.Outcome, res.Detail = "error", err.Error()
+		return res
+	}
+	defer os.RemoveAll(tmp)
+	work := filepath.Join(tmp, "repo")
+	if err := copyTree(repo, work); err != nil {
+		res.Outcome, res.Detail = "error", err.Error()
+		return res
+	}
+	ap := exec.Command("git", "apply", filepath.Join(bp.Dir, "patch.diff"))
+	ap.Dir = work
+	if out, err := ap.CombinedOutput(); err != nil {
+		res.Outcome, res.Detail = "skipped", "patch no longer applies to the current tree: "+firstLine(string(out))
+		return res
+	}
+	cmd := exec.Command(self, "-repo", work, "-out", filepath.Join(tmp, "ev"), "-known", knownPath, "-tier", "quick", "all")
+	cmd.Env = append(os.Environ(), "VERIF_SELFTEST_CHILD=1")
+	outb, err := cmd.CombinedOutput()
+	out := string(outb)
+	code := 0
+	if ee, ok := err.(*exec.ExitError); ok {
+		code = ee.ExitCode()
+	}
+	if strings.Contains(out, "load error:") {
+		res.Outcome, res.Detail = "error", firstLine(out)
+		return res
+	}
+	if code == 0 {
+		res.Outcome = "silent"
+	} else {
+		res.Outcome, res.Detail = "FALSE-ALARM", firstViolation(out)
+	}
+	return res
 }
 
 // seededChange is an independently written change (sub-agent) kept under /verif/seeded/<id>/.
